@@ -12,7 +12,13 @@ DKK = "wannierberri/data_K/data_K_k.py"
 SHR = "wannierberri/system/system_hr.py"
 STB = "wannierberri/system/system_tb.py"
 DK = "wannierberri/data_K/data_K.py"
+WU = "wannierberri/w90files/utility.py"
 MUTANTS = [
+    dict(prop="C23", name="get_mp_grid: limit_denominator(50)", file=WU, old="kfrac = [Fraction(k).limit_denominator(100) for k in kpoints[:, i]]", new="kfrac = [Fraction(k).limit_denominator(50) for k in kpoints[:, i]]"),
+    dict(prop="C23", name="get_mp_grid: max instead of min", file=WU, old="            kmin = min(kfrac)\n            assert kmin.numerator == 1, f\"numerator of the smallest fraction is not 1 : {kmin}\"\n            mp_grid[i] = kmin.denominator", new="            kmin = max(kfrac)\n            mp_grid[i] = kmin.denominator"),
+    dict(prop="C23", name="grid_from_kpoints: missing check off by one", file=WU, old="    if num_selected < num_k_grid:", new="    if num_selected < num_k_grid - 1:"),
+    dict(prop="C23", name="grid_from_kpoints: duplicates counted", file=WU, old="            if kint not in kpoints_unique:", new="            if kint not in kpoints_unique or len(kpoints_unique) == 3:"),
+    dict(prop="C23", name="grid_from_kpoints: kint not reduced (PRESERVING for coords in [0,1))", file=WU, old="            kint = tuple(np.round(k * npgrid).astype(int))", new="            kint = tuple(int(x) for x in np.round(k * npgrid))", expect="ok"),
     dict(prop="C04", name="random_gauge: revert fix (self.true)", file=DK, old="for ik, deg in enumerate(self.degen):", new="for ik, deg in enumerate(self.true):"),
     dict(prop="C04", name="random_gauge: rotates one column too many", file=DK, old="self._UU[ik, :, ib1:ib2] = self._UU[ik, :, ib1:ib2].dot(unitary_group.rvs(ib2 - ib1))", new="self._UU[ik, :, ib1:ib2 + 1] = self._UU[ik, :, ib1:ib2 + 1].dot(unitary_group.rvs(min(ib2 + 1, self._UU.shape[2]) - ib1))"),
     dict(prop="C04", name="random_gauge: multiplies from the left", file=DK, old="self._UU[ik, :, ib1:ib2] = self._UU[ik, :, ib1:ib2].dot(unitary_group.rvs(ib2 - ib1))", new="self._UU[ik, ib1:ib2, :] = unitary_group.rvs(ib2 - ib1).dot(self._UU[ik, ib1:ib2, :])"),
